@@ -833,6 +833,114 @@ theorem sparse_mergeWith_nonfinite {S : Type} [StoreI S] (fuel : Nat) (o : S)
 
 end sparseMerge
 
+/-! ## Dsparse. `SparseStore.DecodeAndMergeWith` -/
+
+section sparseDecode
+open DDS.GenStoreDecode DDS.GenEncoding DDS.Sketch DDS.Codec DDS.GenSparse DDS.Gen.Sparse
+
+theorem SparseStore_wrapper_eq (I : StoreI SparseStore) (fuel : Nat) (s : SparseStore)
+    (b : List (BitVec 8)) (sf : SubFlag) :
+    @Gen.SparseDecode.SparseStore.DecodeAndMergeWith I fuel s b sf = @DecodeAndMergeWith SparseStore I fuel s b sf :=
+  bind_ok_triple _
+
+/-- the regenerated `AddWithCount` on a `float64` weight (no loop, no fuel, no iteration order: the `ord` oracle
+    of `GenSparse` is not involved); a non-finite float leaves the receiver as it was -/
+def spAddWithCount (g : SparseStore) (i : Int) (c : F64) : SparseStore :=
+  match ratOfF64 c with
+  | some w => g.AddWithCount i w
+  | none => g
+
+/-- what the theorems need of the `StoreI` instance handed to the wrapper -/
+structure SparseAdds (I : StoreI SparseStore) : Prop where
+  addWithCount : ∀ g i c, I.AddWithCount g i c = spAddWithCount g i c
+  add : ∀ g i, I.Add g i = g.Add i
+
+/-- the regenerated map holds the canonical content of the model's sparse store -/
+def SRel (g : SparseStore) (st : Store) : Prop := ∃ c : Content, Rep g c ∧ st = .sp c
+
+/-- the calls the sparse store's contract covers: finite weights are `≥ 0` (a negative weight can leave a phantom
+    zero entry in the Go map, `GenSparse`) -/
+def NonnegCall : Call → Prop
+  | (_, some (.fin w)) => 0 ≤ w
+  | _ => True
+
+theorem srel_step (I : StoreI SparseStore) (hI : SparseAdds I) (g : SparseStore) (st : Store) (c : Call)
+    (h : SRel g st) (hc : NonnegCall c) : SRel (@applyCall SparseStore I g c) (applyCall st c) := by
+  obtain ⟨ct, hr, rfl⟩ := id h
+  obtain ⟨i, oc⟩ := c
+  cases oc with
+  | some c =>
+    show SRel (I.AddWithCount _ i c) _
+    rw [hI.addWithCount]
+    cases c with
+    | fin w => exact ⟨ct.add i w, addWithCount_rep hr i w hc, rfl⟩
+    | pinf => exact h
+    | ninf => exact h
+    | nan => exact h
+  | none =>
+    show SRel (I.Add _ i) _
+    rw [hI.add]
+    exact ⟨ct.add i 1, add_rep hr i, rfl⟩
+
+/-- **parametricity for the sparse store**: if every finite weight the bytes carry is `≥ 0`, the wrapper on a map
+    holding the canonical content `c` and the generic decoder on the model store `.sp c` agree — every fuel -/
+theorem sparse_decode_sim (I : StoreI SparseStore) (hI : SparseAdds I) (g : SparseStore) (c : Content)
+    (h : Rep g c) (fuel : Nat) (b : List (BitVec 8)) (sf : SubFlag)
+    (hP : ∀ l b' e, decodeCalls fuel b sf = .ok (l, b', e) → ∀ x ∈ l.calls, NonnegCall x) :
+    ResRel SRel (@Gen.SparseDecode.SparseStore.DecodeAndMergeWith I fuel g b sf)
+      (DecodeAndMergeWith fuel (Store.sp c) b sf) := by
+  rw [SparseStore_wrapper_eq]
+  exact @decode_param_on SparseStore Store I _ SRel NonnegCall (fun x st c h hc => srel_step I hI x st c h hc)
+    fuel g (.sp c) b sf ⟨c, h, rfl⟩ hP
+
+theorem sparse_decode_ok (I : StoreI SparseStore) (hI : SparseAdds I) (g : SparseStore) (c : Content)
+    (h : Rep g c) (st' : Store) (sub : Nat) (b : List (BitVec 8)) (rest : Bytes)
+    (fuel : Nat) (hf : b.length + 9 ≤ fuel) (hw : NoWrap sub (nb b))
+    (hP : ∀ l b' e, decodeCalls fuel b (subflag sub) = .ok (l, b', e) → ∀ x ∈ l.calls, NonnegCall x)
+    (hm : decodeStore (.sp c) sub (nb b) = some (.ok (st', rest))) :
+    ∃ c', st' = .sp c' ∧ Rep (⟨c'⟩ : SparseStore) c' ∧
+      @Gen.SparseDecode.SparseStore.DecodeAndMergeWith I fuel g b (subflag sub) = .ok (⟨c'⟩, bn rest, GoErr.nil) := by
+  obtain ⟨x', ⟨c', hr, rfl⟩, hx⟩ := (sparse_decode_sim I hI g c h fuel b (subflag sub) hP).of_ok
+    (DecodeAndMergeWith_ok (.sp c) st' sub b rest fuel hf hw hm)
+  obtain ⟨cs⟩ := x'
+  have : cs = c' := hr.1
+  subst this
+  exact ⟨cs, rfl, hr, hx⟩
+
+/-- refusal: no condition on the weights (only the outcome is compared) -/
+theorem sparse_decode_error (I : StoreI SparseStore) (g : SparseStore) (st : Store) (sub : Nat) (hsub : sub < 64)
+    (b : List (BitVec 8)) (e : SkErr) (fuel : Nat) (hf : b.length + 9 ≤ fuel)
+    (hm : decodeStore st sub (nb b) = some (.error e)) :
+    (KnownSub sub ∧ e = .eof ∧ ∃ g' b',
+      @Gen.SparseDecode.SparseStore.DecodeAndMergeWith I fuel g b (subflag sub) = .ok (g', b', GoErr.eof)) ∨
+    (¬ KnownSub sub ∧ e = .unknownBinEncoding ∧
+      @Gen.SparseDecode.SparseStore.DecodeAndMergeWith I fuel g b (subflag sub)
+        = .ok (g, b, GoErr.named "unknown bin encoding")) := by
+  rw [SparseStore_wrapper_eq]
+  exact @decode_model_error SparseStore I (fun _ _ => True) (fun _ => True) (fun _ _ _ _ _ => trivial)
+    g st trivial sub hsub b e fuel hf (fun _ _ _ _ _ _ => trivial) hm
+
+/-- an instance meeting `SparseAdds` exists (the methods the decoder does not call are inert here) -/
+@[reducible] def sparseI : StoreI SparseStore where
+  Add g i := g.Add i
+  AddWithCount := spAddWithCount
+  Copy g := g
+  Clear _ := NewSparseStore
+  IsEmpty g := g.IsEmpty
+  MaxIndex _ := (0, GoErr.nil)
+  MinIndex _ := (0, GoErr.nil)
+  TotalCount _ := .fin 0
+  KeyAtRank _ _ := 0
+  MergeWith g _ := g
+  Reweight g _ := (g, GoErr.nil)
+  Encode g b _ := (g, b)
+  ForEachList g := finBins g.counts
+  DecodeAndMergeWith g b _ := (g, b, GoErr.nil)
+
+theorem sparseI_adds : SparseAdds sparseI := ⟨fun _ _ _ => rfl, fun _ _ => rfl⟩
+
+end sparseDecode
+
 /-! ## F. `mapping.NewDefaultMapping` -/
 
 section mappingCtor
